@@ -109,7 +109,10 @@ def gen_case(rng):
     # which flag is wrong in a flags fault: the Optional bit flipped, or the Partial bit set on an attribute that is
     # well-known or optional non-transitive (RFC 4271 4.3: it must be 0 there)
     flagbits = {x[1]: rng.choice([0x80, 0x20]) for x in faults if x[0] == "flags"}
-    return {"ibgp": ibgp, "revised": revised, "present": present, "faults": faults, "peer_as": peer_as, "flagbits": flagbits}
+    # how a malformed AS_PATH is malformed: 0 a segment whose count exceeds its octets; from an eBGP peer outside any confederation
+    # also 1 / 2: a confederation segment AFTER ordinary segments (RFC 5065: such a peer must not send one anywhere in the path)
+    pathbad = 0 if ibgp else rng.choice([0, 1, 2])
+    return {"ibgp": ibgp, "revised": revised, "present": present, "faults": faults, "peer_as": peer_as, "flagbits": flagbits, "pathbad": pathbad}
 
 
 def build(c):
@@ -128,6 +131,8 @@ def build(c):
         if t in f.get("flags", []):
             flags ^= c.get("flagbits", {}).get(t, 0x80)
         val = bad_value(t) if t in f.get("mal", []) else good_value(t, pa, ib)
+        if t == 2 and t in f.get("mal", []) and c.get("pathbad"):
+            val = aspath([pa]) + (aspath([65100], segtype=3) if c["pathbad"] == 1 else aspath([7, 8], segtype=1) + aspath([65100], segtype=4))
         attrs.append(attr(flags, t, val))
         if t in f.get("dup", []):
             attrs.append(attr(flags, t, val))
